@@ -13,6 +13,21 @@ Theorem lr_no_panic : forall g T partial fuel w n,
 Proof. intros g T partial fuel w n Hwf Hs. exact (lr_no_panic_main g T Hs partial w fuel n). Qed.
 Print Assumptions lr_no_panic.
 
+(* the same for ANY lexer (a user-supplied one may answer with token kinds the
+   state does not expect, zero-length tokens, anything computed from the whole
+   configuration): never a panic; an unexpected kind surfaces as the error
+   result ErrNoAction. The default lexer is an instance. *)
+Theorem lr_any_lexer_no_panic : forall g T (lex : conf -> tok) fuel w n,
+  wf_grammar_b g = true -> safe_b g T = true ->
+  run_lex g T lex fuel (init 0 w) <> Panic n.
+Proof. intros g T lex fuel w n Hwf Hs. exact (lr_any_lexer_no_panic_main g T Hs lex w fuel n). Qed.
+Print Assumptions lr_any_lexer_no_panic.
+
+Theorem default_lexer_is_an_instance : forall g T partial fuel c,
+  run_lex g T (default_lex T partial) fuel c = run g T partial fuel c.
+Proof. intros g T partial fuel c. exact (run_lex_default g T partial fuel c). Qed.
+Print Assumptions default_lexer_is_an_instance.
+
 Example lr_no_panic_nonvacuous :
   safe_b C02.ex_g C02.ex_T = true /\ reduce_acyclic_b C02.ex_g C02.ex_T = true.
 Proof. vm_compute. split; reflexivity. Qed.
